@@ -17,7 +17,7 @@ import sys
 
 VERIF = os.path.dirname(os.path.dirname(os.path.abspath(__file__)))
 BENIGN = os.path.join(VERIF, "benign")
-REPO = "/repo"
+REPO = os.environ.get("PYREX_REPO", "/repo")
 
 
 def sh(cmd, cwd=None, timeout=3600):
